@@ -113,7 +113,7 @@ pub fn run(ctx: &Ctx) -> ! {
     ev.extra.insert("zoneless_probes".into(), ((probes.len() as u64) - excluded).into());
 
     let mut rng = Rng::new(mix(ctx.seed, 0xC36));
-    let rounds = if ctx.quick() { 3 } else { 40 };
+    let rounds = if ctx.quick() { 8 } else { 60 };
     let mut tz_changed = 0u64;
     let mut samples = vec![];
     for round in 0..rounds {
